@@ -505,7 +505,7 @@ func gen(r0 *vh.Rand) string {
 	var out []string
 	files := r.Chance(1, 10) // whole history through the file loaders (more often in the thorough tier)
 	if vh.Thorough {
-		files = r.Chance(1, 3)
+		files = r.Chance(1, 5)
 	}
 	for i := 0; i < n; i++ {
 		ng, nt := mutate(r, cloneG(g), cloneT(t), i == 0)
